@@ -54,6 +54,20 @@ for _num in range(-8, 9):
             _PI_MULTIPLES[float(_num / (math.pi * _den))] = ("inv", Fraction(_num, _den))
 
 
+_PI2_MULTIPLES = {}
+for _a in range(1, 37):
+    for _b in (1, 2, 3, 4, 6, 8, 9, 12, 16, 18, 24, 32, 36, 48, 64, 72, 81, 144):
+        _q = Fraction(_a, _b)
+        _PI2_MULTIPLES.setdefault(float(_q.numerator * math.pi * math.pi / _q.denominator), _q)
+        _PI2_MULTIPLES.setdefault(float(((math.pi * _q.numerator) / _q.denominator) * math.pi), _q)
+for _k in range(0, 7):
+    for _n in range(1, 7):
+        for _d in (1.0, 2.0, 0.5, 4.0, 0.25):
+            _v = float((math.pi * _k / _n / _d) ** 2)
+            if _v:
+                _PI2_MULTIPLES.setdefault(_v, Fraction(_k * _k, _n * _n) / Fraction(_d) ** 2)
+
+
 def frac_of_float(x):
     """smallest-denominator (power-of-ten ladder) rational that rounds to the double x"""
     fr = Fraction(x)
@@ -90,6 +104,11 @@ def lift_real(x):
             if isinstance(m, tuple):
                 return z3frac(m[1]) / PI
             return z3frac(m) * PI
+        m2 = _PI2_MULTIPLES.get(x) or (_PI2_MULTIPLES.get(-x) and -_PI2_MULTIPLES[-x])
+        if m2:
+            if ENV is not None:
+                ENV.uses_pi = True
+            return z3frac(m2) * PI * PI
         return z3frac(frac_of_float(x))
     if isinstance(x, Fraction):
         return z3frac(x)
@@ -574,6 +593,7 @@ class Env:
         self.pos = 0
         self.pc = []
         self.inputs = {}
+        self.sqrt_sq_reset = True
         self.uf_apps = []
         self.uf_axioms_done = set()
         self.sqrt_memo = []
@@ -598,6 +618,9 @@ class Env:
             self.defs = {}
             self.def_constraints = []
             self.rw_full = Rewriter(self.defs)
+            self.sqrt_sq = {}
+            self.rw.N.sqrt_sq = self.sqrt_sq
+            self.rw_full.N.sqrt_sq = self.sqrt_sq
             self.nonzero_done = set()
 
     def _rewrite(self, c):
@@ -782,6 +805,42 @@ class Env:
         self.stats[r] += 1
         self.stats["solver_s"] += dt
         return r, m, dt
+
+    def _external_unsat(self, extra, with_defs):
+        """run /usr/bin/z3 (4.8.12) on the current path condition + extra; returns ('unsat'|'sat'|'unknown', seconds)"""
+        import os
+        import subprocess
+        import tempfile
+        t = time.time()
+        s2 = z3.Solver()
+        for a in self.solver.assertions():
+            s2.add(a)
+        s2.add(self._rewrite(extra))
+        if with_defs:
+            for d in self.def_constraints:
+                s2.add(d)
+        text = s2.to_smt2().replace("(set-info :status unknown)", "")
+        reals_only = not self.ufs_used and all(z3.is_real(v) for v in self.inputs.values())
+        if reals_only:
+            text = "(set-logic QF_NRA)\n" + text
+        fd, path = tempfile.mkstemp(suffix=".smt2", prefix="symx_")
+        os.write(fd, text.encode())
+        os.close(fd)
+        res = "unknown"
+        try:
+            tmo = max(10, int(self.final_timeout_ms / 1000))
+            out = subprocess.run(["/usr/bin/z3", "-T:%d" % tmo, path], capture_output=True, text=True, timeout=tmo + 10).stdout
+            self.stats["external_queries"] = self.stats.get("external_queries", 0) + 1
+            if "(error" in out:
+                res = "unknown"
+            else:
+                first = out.strip().splitlines()[0] if out.strip() else "unknown"
+                res = first if first in ("sat", "unsat") else "unknown"
+        except Exception:
+            res = "unknown"
+        finally:
+            os.unlink(path)
+        return res, time.time() - t
 
     def branch(self, expr):
         if self.mode != "sym":
@@ -1031,6 +1090,29 @@ class Env:
             if r == "unsat":
                 c.held += 1
                 return True
+            if r == "unknown":
+                # second opinion from the other z3 configuration (incremental core <-> non-incremental nlsat tactic)
+                saved = self.logic
+                alt = None if saved else ("QF_NRA" if not self.ufs_used and all(z3.is_real(v) for v in self.inputs.values()) else None)
+                if alt != saved:
+                    self.logic = alt
+                    try:
+                        r, m, dt = self._check(neg, timeout_ms=self.final_timeout_ms, with_defs=wd)
+                    finally:
+                        self.logic = saved
+                    c.solver_s += dt
+                    self.stats["second_opinion_queries"] = self.stats.get("second_opinion_queries", 0) + 1
+                    if r == "unsat":
+                        c.held += 1
+                        return True
+            if r == "unknown":
+                # third opinion: the system z3 binary (4.8.12) on the dumped SMT-LIB2 query; only 'unsat' is used
+                r3, dt = self._external_unsat(neg, wd)
+                c.solver_s += dt
+                if r3 == "unsat":
+                    c.held += 1
+                    self.stats["held_by_external_z3"] = self.stats.get("held_by_external_z3", 0) + 1
+                    return True
             if r == "unknown":
                 r, m, dt = self._guided([neg] + ([lift_bool(margin)] if margin is not None else []), 24, wd)
                 c.solver_s += dt
